@@ -411,6 +411,9 @@ def run(prog, rep, tier):
     rep.rule('ACCUM-mixed', 'a container that accumulates contributions in a loop is not also '
              'overwritten there')
     check_mixed_accumulation(prog, rep, ['tenpy/networks/mpo.py'])
+    rep.rule('RANGE-period-mixed', 'loop index compared against one period symbol only')
+    if check_period_mixed(prog, rep) < 1:
+        raise AnalysisError('RANGE-period-mixed: the common-unit-cell loop of expectation_value_power not found')
     return rep.finish(
         level='other',
         explanation='Flag exhaustiveness over %d W-using MPO methods, flag forwarding of derived '
@@ -654,3 +657,56 @@ def check_plus_identity(prog, rep):
                           '%s, beta when counter == %r' % (what, which, k, others, got),
                           st.lineno)
     return 1
+
+
+def check_period_mixed(prog, rep):
+    """RANGE-period-mixed: a function that defines a local period `L = lcm(self.L, psi.L)` (common
+    unit cell) compares its running site index against THAT period; an ordering comparison of the
+    same loop index against the raw `self.L` next to one against the local `L` stops / starts the
+    evaluation after the MPO unit cell instead of the common one. (`i % self.L` to address a tensor
+    of the unit cell is a different use and is fine.)"""
+    m = prog.module(MPO)
+    n = 0
+    for q, f in m.functions.items():
+        shadow = {}
+        for st in stmts_of(f):
+            if isinstance(st, ast.Assign) and len(st.targets) == 1 and isinstance(
+                    st.targets[0], ast.Name):
+                nm = st.targets[0].id
+                if any(is_self_attr(x, nm) for x in ast.walk(st.value)) and not is_self_attr(
+                        st.value, nm):
+                    shadow[nm] = st
+        if not shadow:
+            continue
+        for lp in ast.walk(f):
+            if not (isinstance(lp, ast.For) and isinstance(lp.target, ast.Name)):
+                continue
+            v = lp.target.id
+            uses = {}
+            for c in ast.walk(lp):
+                if isinstance(c, ast.Compare) and len(c.ops) == 1 and isinstance(
+                        c.ops[0], (ast.Lt, ast.LtE, ast.Gt, ast.GtE)):
+                    sides = [c.left, c.comparators[0]]
+                    if not any(isinstance(s_, ast.Name) and s_.id == v for s_ in sides):
+                        continue
+                    other = sides[1] if isinstance(sides[0], ast.Name) and sides[0].id == v \
+                        else sides[0]
+                    for nm in shadow:
+                        if any(is_self_attr(x, nm) for x in ast.walk(other)):
+                            uses.setdefault(nm, {}).setdefault('raw', []).append(c)
+                        if any(isinstance(x, ast.Name) and x.id == nm for x in ast.walk(other)):
+                            uses.setdefault(nm, {}).setdefault('local', []).append(c)
+            for nm, u in uses.items():
+                n += 1
+                rep.instance('RANGE-period-mixed', {'function': q, 'period': nm,
+                                                    'local': [unparse(c) for c in u.get('local', [])],
+                                                    'raw': [unparse(c) for c in u.get('raw', [])]})
+                if u.get('raw') and u.get('local'):
+                    c = u['raw'][0]
+                    rep.violation('RANGE-period-mixed', m, q, 'raw-period:' + unparse(c)[:40],
+                                  '`%s` compares the running index with the raw `self.%s`, while '
+                                  '`%s` in the same loop uses the local `%s = %s`: the two '
+                                  'periods differ when the MPS unit cell is longer than that of '
+                                  'the MPO' % (unparse(c), nm, unparse(u['local'][0]), nm,
+                                               unparse(shadow[nm].value)[:40]), c.lineno)
+    return n
